@@ -6,6 +6,7 @@ import (
 	_ "verif/props/c01"
 	_ "verif/props/c02"
 	_ "verif/props/c03"
+	_ "verif/props/c04"
 	_ "verif/props/c07"
 	_ "verif/props/c08"
 	_ "verif/props/c11"
@@ -18,4 +19,4 @@ import (
 	_ "verif/props/c20"
 )
 
-func main() { drv.Main() }
+func main() { drv.AtExit = profStop; drv.Main() }
